@@ -18,10 +18,11 @@ type externH struct {
 	fn   func(tr *FnCtx, st *State, args []*Val, resT types.Type, instr ssa.Instruction, mode string) *Val
 }
 
-var compStopped = Comp{"$stopped", "(Array Int Bool)"}
-var compArmedDelay = Comp{"$armedDelay", "(Array Int Int)"}
-var compArmedFn = Comp{"$armedFn", "(Array Int Int)"}
-var compLogsRemoved = Comp{"$logsRemoved", "(Array Int Bool)"}
+var compStopped = Comp{"$stopped", "(Array Int Bool)", false}
+var compArmedDelay = Comp{"$armedDelay", "(Array Int Int)", false}
+var compArmedFn = Comp{"$armedFn", "(Array Int Int)", false}
+var compLogsRemoved = Comp{"$logsRemoved", "(Array Int Bool)", false}
+var compUUIDFailed = Comp{"$uuidFailed", "Bool", false}
 
 func unit(resT types.Type) *Val { return &Val{T: resT} }
 
@@ -153,7 +154,7 @@ func initExterns() {
 			tr.set(st, compStopped, store(tr.cur(st, compStopped), args[0].one(), "true"))
 			return tr.freshVal(resT, "stopres")
 		}}
-	externs["github.com/gofrs/uuid.NewV4"] = &externH{doc: "uuid.NewV4 returns an id that is non-zero and not a key of any existing UUID-keyed map, or an error",
+	externs["github.com/gofrs/uuid.NewV4"] = &externH{mods: []string{"$uuidFailed"}, doc: "uuid.NewV4 returns an id that is non-zero and not a key of any existing UUID-keyed map, or an error",
 		fn: func(tr *FnCtx, st *State, args []*Val, resT types.Type, instr ssa.Instruction, mode string) *Val {
 			tr.use("uuid.NewV4: a returned id is non-zero and collides with no key of any UUID-keyed map (collision freedom of random UUIDs assumed)")
 			tup := resT.(*types.Tuple)
@@ -163,8 +164,16 @@ func initExterns() {
 			tr.assume(implies(ok, not(eq(id.one(), "0"))))
 			for _, k := range sortedKeysS(tr.comps) {
 				if strings.HasPrefix(k, "MD.map[github.com/gofrs/uuid.UUID]") {
-					c := Comp{k, tr.comps[k]}
+					c := Comp{k, tr.comps[k], false}
 					tr.assume(implies(ok, fmt.Sprintf("(forall ((m Int)) (! (not (select (select %s m) %s)) :pattern ((select %s m))))", tr.cur(st, c), id.one(), tr.cur(st, c))))
+				}
+			}
+			tr.set(st, compUUIDFailed, not(ok))
+			// no existing job object carries this id either
+			for _, k := range sortedKeysS(tr.comps) {
+				if strings.HasSuffix(k, ".ID") && strings.HasPrefix(k, "F.") && tr.comps[k] == "(Array Int Int)" {
+					c := Comp{k, tr.comps[k], false}
+					tr.assume(implies(ok, fmt.Sprintf("(forall ((x Int)) (! (=> (isold x %s) (not (= (select %s x) %s))) :pattern ((select %s x))))", tr.cur(st, compAlloc), tr.cur(st, c), id.one(), tr.cur(st, c))))
 				}
 			}
 			tr.uuidFresh = append(tr.uuidFresh, id.one())
@@ -208,6 +217,7 @@ func (tr *FnCtx) monitorEnter(st *State, args []*Val) {
 		tr.assume(tr.evalClause(env, m.Cl))
 	}
 	tr.lockSnap = st.clone()
+	tr.applyEntryAssumes(st)
 }
 
 func (tr *FnCtx) monitorExit(st *State, args []*Val) {
